@@ -58,7 +58,7 @@ def build(u, variant=None):
     # ---- the common decision functions --------------------------------------------------------------------------------------
     r_into_inner = make_r_sub("R-into", r"let inner_oper: Oper = \(\*inner_oper\)\.into\(\);", "let inner_oper: Oper = Oper::from_bin(*inner_oper);")
     u.fn(QB, None, "common_inner_expr_well_known_greater_precedence", ret="r", rules=[r_vis, r_into_inner], props=P,
-         spec="ensures r == drop_common(%s, *inner, *outer_oper)," % MP)
+         spec="ensures r == drop_common(%s, *inner, *outer_oper)," % MP, proofs={"body-start": "proof { reveal(drop_common); }"})
     u.fn(QB, None, "common_well_known_left_associative", ret="r", rules=[r_vis], props=P, spec="ensures r == lassoc_common(*op),")
     u.fn("src/backend/postgres/query.rs", None, "is_pg_comparison", ret="r", props=P, spec="ensures r == s_is_pg_comparison(*b),")
     u.fn("src/backend/postgres/query.rs", None, "is_ilike", ret="r", props=P, spec="ensures r == s_is_ilike(*b),")
@@ -71,10 +71,11 @@ def build(u, variant=None):
              key="%s::inner_expr_well_known_greater_precedence" % ty, rules=[make_r_sub("R-into", r"let inner_oper: Oper = \(\*inner_bin_oper\)\.into\(\);", "let inner_oper: Oper = Oper::from_bin(*inner_bin_oper);", min_count=0)],
              spec=[("ensures r == drop_of(%s, %s, *inner, *outer_oper)," % (E, MP), P),
                    ("    // C05: an operand written bare binds tighter than the operator around it, under this engine's table\n    r ==> safe_bare(%s, *inner, *outer_oper)," % E, P)],
-             proofs={"body-start": "proof { if drop_of(%s, %s, *inner, *outer_oper) { lemma_drop_is_safe(%s, %s, *inner, *outer_oper); } }" % (E, MP, E, MP)})
+             proofs={"body-start": "proof { reveal(drop_pg); if drop_of(%s, %s, *inner, *outer_oper) { lemma_drop_is_safe(%s, %s, *inner, *outer_oper); } }" % (E, MP, E, MP)})
         u.fn(lassoc_file, "impl OperLeftAssocDecider for %s" % ty, "well_known_left_associative", ret="r", props=P,
              key="%s::well_known_left_associative" % ty,
-             spec=[("ensures r == lassoc_of(%s, *op)," % E, P), ("    r ==> left_assoc(%s, *op)," % E, P)])
+             spec=[("ensures r == lassoc_of(%s, *op)," % E, P), ("    r ==> left_assoc(%s, *op)," % E, P)],
+             proofs={"body-start": "proof { if lassoc_of(%s, *op) { lemma_lassoc_is_safe(%s, *op); } }" % (E, E)})
         # abstract sub-renderers
         u.spec('''    #[verifier::external_body]
     fn prepare_simple_expr<W: VWrite>(&self, x: &SimpleExpr, sql: &mut W) ensures final(sql).text() == old(sql).text() + expr_text(%(E)s, *x) { unimplemented!() }
@@ -83,8 +84,13 @@ def build(u, variant=None):
     #[verifier::external_body]
     fn prepare_un_oper<W: VWrite>(&self, op: &UnOper, sql: &mut W) ensures final(sql).text() == old(sql).text() + un_oper_text(%(E)s, *op) { unimplemented!() }
 ''' % {"E": E}, "prec::abstract-renderers", props=P)
+        u.fn(QB, "trait QueryBuilder", "prepare_between_bound", props=P, key="%s::prepare_between_bound" % ty, vpath="%s::prepare_between_bound" % ty,
+             rules=[r_dynw, r_fmt, r_into_oper],
+             spec="ensures final(sql).text() == old(sql).text() + bound_text(%(E)s, %(MP)s, *op, *bound)," % {"E": E, "MP": MP},
+             proofs={"body-start": "let ghost t0 = sql.text();\nproof { reveal(bound_text); reveal_strlit(\"(\"); reveal_strlit(\")\"); assert(\"(\"@ =~= seq!['(']); assert(\")\"@ =~= seq![')']); }",
+                     "body-end": "proof { lemma_paren(!drop_paren, expr_text(%(E)s, *bound)); assert(sql.text() =~= t0 + paren(!drop_paren, expr_text(%(E)s, *bound))); }" % {"E": E}})
         # binary_expr (trait default, instantiated for this backend's deciders)
-        u.fn(QB, "trait QueryBuilder", "binary_expr", props=P, key="%s::binary_expr" % ty, vpath="%s::binary_expr" % ty,
+        u.fn(QB, "trait QueryBuilder", "binary_expr", props=P, key="%s::binary_expr" % ty, vpath="%s::binary_expr" % ty, 
              rules=[r_dynw, r_fmt, r_into_oper,
                     make_r_sub("R-attr", r"op == left\.get_bin_oper\(\)\.unwrap\(\)", "vbinoper_eq(op, left.get_bin_oper().unwrap())"),
                     make_r_sub("R-attr", r"\(op == &BinOper::As\)", "vbinoper_eq(op, &BinOper::As)"),
@@ -95,20 +101,36 @@ def build(u, variant=None):
     // shape: [(] left [)] op [(] right [)], with the parentheses decided as specified
     final(sql).text().subrange(0, old(sql).text().len() as int) == old(sql).text(),
     final(sql).text().subrange(old(sql).text().len() as int, final(sql).text().len() as int)
-        == binary_text(%(E)s, !left_bare(%(E)s, %(MP)s, *left, *op), *left, *op, !right_bare(%(E)s, %(MP)s, *op, *right), *right),""" % {"E": E, "MP": MP}, P),
+        == binary_text(%(E)s, %(MP)s, !left_bare(%(E)s, %(MP)s, *left, *op), *left, *op, !right_bare(%(E)s, %(MP)s, *op, *right), *right),""" % {"E": E, "MP": MP}, P),
                    ("    // C05, left operand: omitted parentheses are redundant under this engine's precedence / associativity\n    left_bare(%(E)s, %(MP)s, *left, *op) ==> safe_bare_left(%(E)s, *left, *op)," % {"E": E, "MP": MP}, P),
                    ("    // C05, right operand, plain precedence\n    drop_of(%(E)s, %(MP)s, *right, Oper::BinOper(*op)) ==> safe_bare(%(E)s, *right, Oper::BinOper(*op))," % {"E": E, "MP": MP}, P),
                    ("    // C05, x BETWEEN lo AND hi: lo and hi, parenthesised by the rules for AND, must also be safe under BETWEEN\n    between_hack(*op, *right) ==> (*right matches SimpleExpr::Binary(lo, _, hi) && between_bounds_ok(%(E)s, %(MP)s, *op, *lo, *hi))," % {"E": E, "MP": MP}, P),
                    ("    // C05, x LIKE p ESCAPE c: p and c are bare only when atomic\n    escape_hack(*op, *right) ==> (*right matches SimpleExpr::Binary(p, _, c) && escape_operands_ok(%(E)s, %(MP)s, *p, *c))," % {"E": E, "MP": MP}, P)],
              proofs={"body-start": "let ghost t0 = sql.text();\nproof { reveal_strlit(\"(\"); reveal_strlit(\")\"); reveal_strlit(\" \"); assert(\"(\"@ =~= seq!['(']); assert(\")\"@ =~= seq![')']); assert(\" \"@ =~= seq![' ']); }",
+                     'before#1:vfmt_lit(sql, " ");': "let ghost t1 = sql.text();\nproof { lemma_paren(left_paren, expr_text(%(E)s, *left)); assert(t1 =~= t0 + paren(left_paren, expr_text(%(E)s, *left))); }" % {"E": E},
+                     "before#1:// If right has higher precedence": "let ghost t2 = sql.text();\nproof { assert(t2 =~= t1 + (seq![' '] + bin_oper_text(%(E)s, *op) + seq![' '])); }" % {"E": E},
                      "body-end": """proof {
     let lp = left_paren; let rp = right_paren;
     assert(lp == !left_bare(%(E)s, %(MP)s, *left, *op));
     assert(rp == !right_bare(%(E)s, %(MP)s, *op, *right));
-    assert(sql.text() =~= t0 + binary_text(%(E)s, lp, *left, *op, rp, *right));
-    assert(sql.text().subrange(t0.len() as int, sql.text().len() as int) =~= binary_text(%(E)s, lp, *left, *op, rp, *right));
-    assert(sql.text().subrange(0, t0.len() as int) =~= t0);
-    if left_bare(%(E)s, %(MP)s, *left, *op) && !drop_of(%(E)s, %(MP)s, *left, Oper::BinOper(*op)) { lemma_lassoc_is_safe(%(E)s, *op); }
+    assert(drop_right_between_hack == between_hack(*op, *right));
+    lemma_paren(rp, right_text(%(E)s, %(MP)s, *op, *right));
+    assert(sql.text() =~= t2 + paren(rp, right_text(%(E)s, %(MP)s, *op, *right)));
+    lemma_concat3(t0, paren(lp, expr_text(%(E)s, *left)), seq![' '] + bin_oper_text(%(E)s, *op) + seq![' '], paren(rp, right_text(%(E)s, %(MP)s, *op, *right)), sql.text());
+    if right is Binary {
+        lemma_between_ok(%(E)s, %(MP)s, *op, *right->Binary_0, *right->Binary_2);
+        lemma_escape_ok(%(E)s, %(MP)s, *right->Binary_0, *right->Binary_2);
+    }
+    if left_bare(%(E)s, %(MP)s, *left, *op) { lemma_left_safe(%(E)s, %(MP)s, *left, *op); }
+    if drop_of(%(E)s, %(MP)s, *right, Oper::BinOper(*op)) { lemma_drop_is_safe(%(E)s, %(MP)s, *right, Oper::BinOper(*op)); }
 }""" % {"E": E, "MP": MP}})
+        # the Unary arm of prepare_simple_expr_common:  NOT <expr>
+        u.arm(QB, "trait QueryBuilder", "prepare_simple_expr_common", "SimpleExpr::Unary(op, expr)", "unary_arm", "&self, op: &UnOper, expr: &SimpleExpr, sql: &mut W",
+              rules=[make_r_sub("R-arm", r"fn unary_arm\(", "fn unary_arm<W: VWrite>("), r_fmt, make_r_sub("R-into", r"&\(\*op\)\.into\(\)", "&Oper::from_un(*op)")],
+              props=P, key="%s::prepare_simple_expr_common[Unary arm]" % ty, vpath="%s::unary_arm" % ty,
+              spec=[("ensures final(sql).text() == old(sql).text() + un_oper_text(%(E)s, *op) + seq![' '] + paren(!drop_of(%(E)s, %(MP)s, *expr, Oper::UnOper(*op)), expr_text(%(E)s, *expr))," % {"E": E, "MP": MP}, P),
+                    ("    // C05: NOT x without parentheses only if x binds tighter than NOT\n    drop_of(%(E)s, %(MP)s, *expr, Oper::UnOper(*op)) ==> safe_bare(%(E)s, *expr, Oper::UnOper(*op))," % {"E": E, "MP": MP}, P)],
+              proofs={"body-start": "let ghost t0 = sql.text();\nproof { reveal_strlit(\"(\"); reveal_strlit(\")\"); reveal_strlit(\" \"); assert(\"(\"@ =~= seq!['(']); assert(\")\"@ =~= seq![')']); assert(\" \"@ =~= seq![' ']); }",
+                      "body-end": "proof { lemma_paren(!drop_expr_paren, expr_text(%(E)s, *expr)); assert(sql.text() =~= t0 + un_oper_text(%(E)s, *op) + seq![' '] + paren(!drop_expr_paren, expr_text(%(E)s, *expr))); }" % {"E": E}})
         u.emit("}\n")
     u.emit("} // verus!\nfn main() {}\n")
